@@ -1,0 +1,38 @@
+//go:build verif
+
+// Contracts for the deductive verifier in /verif (comment-only file; compiled out
+// unless the build tag `verif` is set, and even then contains no executable code).
+package index
+
+// ---- merging the results of parallel sub-queries (property C06) ----
+// The fan-out goroutines are not modelled: sets[] and results[] are arbitrary after wg.Wait();
+// the merge below them is proved for all their values.
+
+// comparator of the final sort: higher hybrid score first
+//@ func (indexManager).searchParallel$2
+//@   property C06
+//@   pure
+//@   ensures (result < 0) == (a.HybridScore > b.HybridScore || (isNaN(b.HybridScore) && !isNaN(a.HybridScore)))
+
+//@ func (indexManager).searchParallel
+//@   property C06
+//@   safety -overflow
+//@   opaque cancel
+//@   timeout 40
+//@   ensures err == nil && len(queries) == 1 ==> result0 == final(sets)[0] && result1 == final(results)[0]
+//@   ensures err == nil && len(queries) != 1 && isDisjunction ==> forallv(y uint64, bhas(result0, y) == exists(i, 0, len(final(sets)), bhas(final(sets)[i], y)))
+//@   ensures err == nil && len(queries) != 1 && !isDisjunction ==> forallv(y uint64, bhas(result0, y) == (len(final(sets)) > 0 && forall(i, 0, len(final(sets)), bhas(final(sets)[i], y))))
+//@   ensures err == nil && len(queries) != 1 && !isDisjunction ==> forall(k, 0, len(result1), bhas(result0, result1[k].NodeId))
+//@   ensures err == nil && len(queries) != 1 ==> forall(a, 0, len(result1), forall(b, a+1, len(result1), result1[a].NodeId != result1[b].NodeId))
+//@   ensures err == nil && len(queries) != 1 ==> forall(a, 0, len(result1), forall(b, a+1, len(result1), !(result1[b].HybridScore > result1[a].HybridScore)))
+//@   loop 1 invariant rangeindex >= -1
+//@   loop 2 invariant rangeindex >= -1 && rangeindex < len(results)
+//@   loop 2 invariant !isDisjunction ==> forall(k, 0, len(finalResults), bhas(finalSet, finalResults[k].NodeId))
+//@   loop 2 invariant forall(a, 0, len(finalResults), forall(b, a+1, len(finalResults), finalResults[a].NodeId != finalResults[b].NodeId))
+//@   loop 2 invariant forall(k, 0, len(finalResults), contains(deduplicateMap, finalResults[k].NodeId) && deduplicateMap[finalResults[k].NodeId] == k)
+//@   loop 2 invariant forallv(id uint64, contains(deduplicateMap, id) ==> 0 <= deduplicateMap[id] && deduplicateMap[id] < len(finalResults) && finalResults[deduplicateMap[id]].NodeId == id)
+//@   loop 3 invariant rangeindex >= -1 && rangeindex < len(res)
+//@   loop 3 invariant !isDisjunction ==> forall(k, 0, len(finalResults), bhas(finalSet, finalResults[k].NodeId))
+//@   loop 3 invariant forall(a, 0, len(finalResults), forall(b, a+1, len(finalResults), finalResults[a].NodeId != finalResults[b].NodeId))
+//@   loop 3 invariant forall(k, 0, len(finalResults), contains(deduplicateMap, finalResults[k].NodeId) && deduplicateMap[finalResults[k].NodeId] == k)
+//@   loop 3 invariant forallv(id uint64, contains(deduplicateMap, id) ==> 0 <= deduplicateMap[id] && deduplicateMap[id] < len(finalResults) && finalResults[deduplicateMap[id]].NodeId == id)
